@@ -264,6 +264,10 @@ pub struct RecvScript {
     pub pauses: Vec<(u32, u64)>,
     /// sleep before the first read
     pub start_delay_us: u64,
+    /// abandon the stream (drop the handle without calling stop_sending) once this many bytes
+    /// were read, after sleeping for the given time (so that the rest has arrived meanwhile)
+    #[serde(default)]
+    pub drop_at: Option<(u64, u64)>,
 }
 
 #[derive(Clone, Copy, Debug, Serialize, Deserialize, PartialEq, Eq, Hash, PartialOrd, Ord)]
